@@ -12,7 +12,7 @@ import re
 import vlib
 from checks import C34 as Q
 
-PROOF_MODULES = []     # coq/Assume/*.v are compiled directly by coqc (not yet in _CoqProject)
+PROOF_MODULES = ["Assume/RefineProofs.vo", "Assume/RefinePow.vo", "Assume/RefineMaxMin.vo"]
 OBLIGATIONS = ["C35/P_abs_rule_sound.v", "C35/P_sign_rule_sound.v", "C35/P_floor_ceiling_rule_sound.v",
                "C35/P_conjugate_rule_sound.v", "C35/P_pow_rule_sound_partial.v", "C35/P_max_rule_sound.v",
                "C35/P_min_rule_sound.v", "C35/P_nonvacuous.v"]
